@@ -11,9 +11,12 @@
 (*     module allows (a guard of the statement that the design violated    *)
 (*     would leave the state without successor), and                       *)
 (*   - the clauses as invariants over the history variables.               *)
-(* Variant "coded" reproduces what the pinned code does (a first plan that *)
-(* may be negative; mode "ge" ignores maxExec): TLC refutes it - kept as a *)
-(* documented counterexample (MC_AgentsAsCoded.cfg), not used by a check.  *)
+(* Variants "coded_start" (the first plan is start +- startVar without a   *)
+(* floor at 0, as PeriodicAgent draws it) and "coded_max" (mode "ge"       *)
+(* ignores maxExec, as DataManipulationAgent does) reproduce the pinned     *)
+(* code: TLC refutes both (a step the module does not allow = deadlock) -  *)
+(* kept as documented counterexamples (MC_AgentsAsCodedStart.cfg,          *)
+(* MC_AgentsAsCodedMax.cfg), not used by a check.                          *)
 EXTENDS Agents, TLC
 
 CONSTANTS MaxStart, MaxStartVar, MaxFreq, MaxExecs, Ticks, PerMille, TapMaxStart, TapMaxFreq, Variant
@@ -22,7 +25,7 @@ VARIABLES plan, mode, concluded
 mvars == <<avars, plan, mode, concluded>>
 
 Max(a, b) == IF a >= b THEN a ELSE b
-FirstPlan(s, sv) == IF Variant = "design" THEN Max(0, s - sv)..(s + sv) ELSE (s - sv)..(s + sv)
+FirstPlan(s, sv) == IF Variant = "coded_start" THEN (s - sv)..(s + sv) ELSE Max(0, s - sv)..(s + sv)
 NextPlan == (t + freq - var)..(t + freq + var)
 
 InitPeriodic ==
@@ -49,7 +52,7 @@ Init == InitPeriodic \/ InitProb \/ InitTap
 
 -----------------------------------------------------------------------------
 Due == IF mode = "eq" THEN t = plan ELSE t >= plan
-Left == IF Variant = "coded" /\ mode = "ge" THEN TRUE ELSE execs < maxExec
+Left == IF Variant = "coded_max" /\ mode = "ge" THEN TRUE ELSE execs < maxExec
 
 PeriodicAct ==
     /\ kind = "periodic" /\ t < Ticks
@@ -94,6 +97,12 @@ TapGiveUp ==
     /\ TapIdle(t, Failed)
     /\ concluded' = concluded
 
+\* ... and, when the chain is repeated, starts again within the same turn
+TapGiveUpRestart ==
+    /\ Turn /\ stage \in 1..nStages /\ ~repeatStages /\ repeatChain
+    /\ TapIdle(t, NotStarted)
+    /\ concluded' = concluded
+
 TapRestart ==
     /\ Turn /\ stage \in Terminal /\ repeatChain
     /\ \E s1 \in {NotStarted, 1} : TapIdle(t, s1)
@@ -110,7 +119,7 @@ Done == t = Ticks /\ UNCHANGED mvars
 Next ==
     \/ PeriodicAct \/ PeriodicIdle
     \/ ProbStep
-    \/ TapWait \/ TapBegin \/ TapWork \/ TapGiveUp \/ TapRestart \/ TapConclude
+    \/ TapWait \/ TapBegin \/ TapWork \/ TapGiveUp \/ TapGiveUpRestart \/ TapRestart \/ TapConclude
     \/ Done
 
 Spec == Init /\ [][Next]_mvars
